@@ -170,6 +170,13 @@ def handleDisp (st : DispSt) : List String → Option (DispSt × String)
       let pf ← parseStore (← stripPrefix "postfailed=" postFailed)
       let deltas ← parseAddrCoins (← stripPrefix "deltas=" deltas)
       some (st, toString (leaversOK canonAddr pre post pf deltas ds))
+  | ["chk", "c11.create", _tag, denoms, ok, outs, dist, mod] => do
+      let ds := (parseList denoms ",").map String.toList
+      let ok ← parseBool ok
+      let outs ← (parseList (← stripPrefix "outs=" outs) ";").mapM parseCoins
+      let dist ← parseCoins (← stripPrefix "dist=" dist)
+      let mod ← parseCoins (← stripPrefix "mod=" mod)
+      some (st, toString (createObsOK ok outs dist mod ds))
   | ["chk", "c20.txsupply", _tag, before, after] => do
       let b ← (parseList before ",").mapM parseNat
       let a ← (parseList after ",").mapM parseNat
